@@ -2,7 +2,7 @@
    Statements only; proofs in Ctl/Dwell.v, Pgm/OpsProofs.v, Pgm/SessionProofs.v. *)
 From Coq Require Import List Bool ZArith NArith QArith.
 Import ListNotations.
-From Femto Require Import Base.Num Ctl.Tok Ctl.Machine Ctl.Dwell Geo.Rigid Pgm.Ops Pgm.OpsProofs Pgm.SessionProofs.
+From Femto Require Import Base.Num Ctl.Tok Ctl.Machine Ctl.Dwell Geo.Rigid Geo.RigidProofs Pgm.Ops Pgm.OpsProofs Pgm.SessionProofs.
 Open Scope Q_scope.
 
 (* For every configuration and every tree of public operations - any nesting of REPEAT / FOR / axis-rotation
@@ -28,6 +28,18 @@ Theorem C12_executed_dwell : forall call, (forall m p, dwell_sum (snd (call m p)
   forall l m, dwell_sum (snd (run_list call m l)) == dw l.
 Proof. exact executed_dwell. Qed.
 Print Assumptions C12_executed_dwell.
+
+(* the fabrication-time clause, move by move: the compiled program visits the transformed path points in order (C01_replay),
+   and with a genuine rotation and the identity index ratio the transformation preserves the length of every step, so
+   distance over programmed feed summed over a pass is the same for the program and for the stored path; the remaining
+   difference - printing with d decimals, float32 storage - is bounded by C01_format_error and checked on instances *)
+Theorem C12_step_lengths_preserved : forall c p q, t_c c * t_c c + t_s c * t_s c == 1 -> t_k c == 1 ->
+  (px3 (tr c p) - px3 (tr c q)) * (px3 (tr c p) - px3 (tr c q)) +
+  (py3 (tr c p) - py3 (tr c q)) * (py3 (tr c p) - py3 (tr c q)) +
+  (pz3 (tr c p) - pz3 (tr c q)) * (pz3 (tr c p) - pz3 (tr c q)) ==
+  (px3 p - px3 q) * (px3 p - px3 q) + (py3 p - py3 q) * (py3 p - py3 q) + (pz3 p - pz3 q) * (pz3 p - pz3 q).
+Proof. exact tr_length3. Qed.
+Print Assumptions C12_step_lengths_preserved.
 
 (* non-vacuity: a dwell inside REPEAT 3 inside FOR 2, with an exception after the first inner op *)
 Example C12_example :
